@@ -203,6 +203,11 @@ func (s *session) cloneReach(r *run, res, a string, roots []int) {
 	s.emit(r, fmt.Sprintf("clonereach %s %s %s", res, a, arg))
 }
 
+func (s *session) simplify(r *run, res, a string) {
+	s.regs[res] = s.u.SimplifySummary(s.regs[a])
+	s.emit(r, fmt.Sprintf("simplify %s %s", res, a))
+}
+
 func (s *session) callUnknown(r *run, res, a string, args []int) {
 	g := s.regs[a].Clone()
 	s.u.CallUnknown(g, args)
@@ -454,6 +459,26 @@ func (s *session) battery(r *run, rnd interface{ Intn(int) int }, present func(i
 		}
 		r.rep.Count(fmt.Sprintf("cloneReachable:roots=%d,trimmed=%v,empty=%v", len(roots), now < kept, now == 0))
 	}
+	// simplifySummary (after the trim in Resummarize) on g, on w ≤ g and on a trimmed graph: exact result,
+	// well-formed, shrinking. It is NOT monotone (Props/C15Simplify.simplify_not_monotone): whether w ≤ g is
+	// preserved is counted, not demanded.
+	for _, x := range []string{"g", "w", "gcr0"} {
+		res := "simp_" + x
+		s.simplify(r, res, x)
+		s.show(r, res)
+		s.chk(r, res, "chk rep=1 closed=1 wf=1")
+		s.le(r, res, x, "simplifySummary shrinking")
+		before, after := 0, 0
+		if eg, ok := egOf(s.u, s.regs[x]); ok && eg != nil {
+			before = eg.Nodes()
+		}
+		if eg, ok := egOf(s.u, s.regs[res]); ok && eg != nil {
+			after = eg.Nodes()
+		}
+		r.rep.Count(fmt.Sprintf("simplifySummary:removed-nodes=%v", after < before))
+	}
+	mono := s.le(r, "simp_w", "simp_g", "")
+	r.rep.Count(fmt.Sprintf("simplifySummary:order-preserved=%v", mono))
 }
 
 func (r *run) finish(label string) {
